@@ -4,7 +4,7 @@ gunicorn).  It never guesses: anything that is not a well-formed response is rep
 import re
 
 TOKEN = re.compile(rb"^[!#$%&'*+\-.^_`|~0-9A-Za-z]+$")
-STATUS_LINE = re.compile(rb"^HTTP/1\.([01]) ([0-9]{3})( [\t \x21-\x7e\x80-\xff]*)?$")
+STATUS_LINE = re.compile(rb"^HTTP/1\.([0-9]) ([0-9]{3})( [\t \x21-\x7e\x80-\xff]*)?$")
 FIELD_VALUE = re.compile(rb"^[\t \x21-\x7e\x80-\xff]*$")
 
 
